@@ -1066,7 +1066,9 @@ class IndexHierarchy(IndexBase):
             return [self._levels.leaf_loc_to_iloc(k) for k in key]
 
         if isinstance(key, np.ndarray) and key.dtype == DTYPE_BOOL:
-            return self.positions[key]
+            post = self.positions[key]
+            post.flags.writeable = False
+            return post
 
         if isinstance(key, HLoc):
             # unpack any Series, Index, or ILoc into the context of this IndexHierarchy
